@@ -8,6 +8,9 @@ def cmp_c16(case, go, m, s):
     S: verdict of the Lean specification (Spec/HttpLog) on the real code's observation."""
     if go == "bad-args" and m == "bad-args":
         return True, True  # not a case (only the shrinker can produce one)
+    if case.startswith("GSESS "):
+        # model column = session.go as translated, specification column = the hand-written model: the real code equals both
+        return go == m, go == s
     return go == m, s == "ok"
 
 
@@ -16,6 +19,8 @@ def _events(go):
 
 
 def hist_c16(case, go):
+    if case.startswith("GSESS "):
+        return ["op:GSESS"]
     a = case.split(" ")
     op = a[0]
     layers = a[1].split(".")
@@ -103,6 +108,7 @@ def shrink_c16(case):
 def register(PROPS):
     PROPS["C16"] = {
         "gens": [{"id": "C16", "quick": 30000, "thorough": 800000, "thorough_seeds": 16}],
+        "generated_layer": True,   # Session.Send / Flush / doUpgrade over Message.WriteTo, translated on every run (op GSESS)
         "compare": cmp_c16,
         "facts": {"const:headerLastEventID": "Last-Event-Id", "const:headerContentType": "Content-Type",
                   "const:headerContentTypeValue": "text/event-stream", "const:DefaultTopic": ""},
@@ -118,6 +124,8 @@ def register(PROPS):
                 "non-trivial = at least one Write or Flush reached the writer; distinct by case line",
         "hist": hist_c16,
         "assumptions": [
+            "Session.Send / Flush / doUpgrade (and Message.WriteTo below them) are translated from /repo's source to Lean on every run and proved "
+            "equal to the model over the recording writer (GoSSE/Proofs/GenEquivSession.lean); op GSESS: real = translated = model",
             "the response writer obeys the io.Writer contract (a successful Write accepts everything; a failing one accepts at most what was offered); "
             "every Write/Flush call may fail independently (fault schedule = arbitrary function of the call number)",
             "http.Flusher.Flush() cannot report an error: a fault scheduled on such a call is invisible to the session (flusherWrapper returns nil)",
